@@ -164,6 +164,9 @@ func runWalkMulti(c *core.Ctx) {
 	}
 	// elementRecursion: slice value sl is indexed in a loop and the element is
 	// passed to a call that reaches target.
+	// noSelf: the walker's own recursion does not count (encodeLeaf calling encodeLeaf skips the dispatch between leaf
+	// and wrapper encoding that EncodeError makes for every node)
+	noSelf := false
 	var elementRecursionD func(fn *ssa.Function, sl ssa.Value, target *ssa.Function, depth int) (bool, bool)
 	elementRecursion := func(fn *ssa.Function, sl ssa.Value, target *ssa.Function) (bool, bool) {
 		return elementRecursionD(fn, sl, target, 0)
@@ -213,7 +216,7 @@ func runWalkMulti(c *core.Ctx) {
 						continue
 					}
 					callee := sx.Callee(call)
-					if callee != nil && (callee == target || callee == fn || reaches(callee, target)) {
+					if callee != nil && (callee == target || (callee == fn && !noSelf) || (callee != fn && reaches(callee, target))) {
 						// (callee == fn: a helper of the walker that recurses into itself)
 						found = true
 					}
@@ -302,12 +305,14 @@ func runWalkMulti(c *core.Ctx) {
 			}
 			for ai, a := range call.Call.Args {
 				if uc, isU := a.(*ssa.Call); isU && sx.Callee(uc) == um && uc.Call.Args[0] == ssa.Value(ee.Params[1]) {
+					noSelf = true
 					rec, fwd := elementRecursion(el, el.Params[ai], ee)
+					noSelf = false
 					ok = rec && fwd
 				}
 			}
 		})
-		c.Check(ok, "errbase.EncodeError/encodeLeaf", ee.Pos(), "UnwrapMulti(err) handed to encodeLeaf, which encodes each element in forward order with EncodeError", "the encoder no longer encodes every branch of a multi-cause node in order")
+		c.Check(ok, "errbase.EncodeError/encodeLeaf", ee.Pos(), "UnwrapMulti(err) handed to encodeLeaf, which encodes each element in forward order with EncodeError", "the encoder no longer encodes every branch of a multi-cause node, in order, through EncodeError (the entry that decides between leaf and wrapper encoding for each node): a branch that is a wrapper travels as a leaf and its own cause chain is dropped")
 	}
 	// census clause
 	for _, et := range GetCensus(c).ErrTypes {
